@@ -48,7 +48,9 @@ func c19Tree(c *c19Case) *h.Tree {
 		if _, ok := tr.Index()["big"]; !ok {
 			tr.Nodes = append(tr.Nodes, h.Node{Path: "big", Kind: h.KDir, Perm: 0o755, Mtime: 5})
 			for i := 0; i < c.Many; i++ {
-				tr.Nodes = append(tr.Nodes, h.Node{Path: fmt.Sprintf("big/e%04d-%s", i, strings.Repeat("n", 40)), Kind: h.KFile, Perm: 0o644, Mtime: 7, Seed: uint32(1 + i), Size: 3})
+				// records of very different sizes, so that a later small record would fit into the
+				// space left at the end of an earlier buffer chunk
+				tr.Nodes = append(tr.Nodes, h.Node{Path: fmt.Sprintf("big/e%04d-%s", i, strings.Repeat("n", 5+(i*37)%200)), Kind: h.KFile, Perm: 0o644, Mtime: 7, Seed: uint32(1 + i), Size: 3})
 			}
 		}
 	}
